@@ -273,6 +273,16 @@ def stacked (opa ns : F) (nFit nsIdx : Nat) (gp : List (List Int)) (W : List F)
     grads := assemble nsIdx (multiGradNs opa ns f dss) (stGradPs opa ns nFit nsIdx gp W ds)
     nsGrad2 := multiNsGrad2 opa ns f dss }
 
+/-- `f_grads[:, pidx] = f_grads_dict[pidx]` into the `(J, n_fitparams)` array of `MultiDatasetTCLLHRatio.evaluate`:
+every gradient-dictionary key (`gpidx - 1` of a positive `gpidx`) must be `< n_fitparams`, else `IndexError` -/
+def keysOk (nFit : Nat) (gp : List (List Int)) : Bool :=
+  gp.all (fun row => row.all (fun g => decide (g ≤ (nFit : Int))))
+
+/-- `stacked` with the one exception the bookkeeping can raise made explicit -/
+def stackedChecked (opa ns : F) (nFit nsIdx : Nat) (gp : List (List Int)) (W : List F)
+    (ds : List (DSIn F)) : Except String (Result F) :=
+  if keysOk nFit gp then .ok (stacked opa ns nFit nsIdx gp W ds) else .error "IndexError"
+
 end
 
 end Grad
